@@ -101,7 +101,11 @@ class Repo:
         self.inlined = {}
         self.absorbed = []
         self.new_functions = []
+        self.unrolled = {}
         self._inline_new_helpers()
+        if not os.environ.get("VERIF_NO_INLINE"):
+            from .normalize import normalize_table_driven
+            self.unrolled = normalize_table_driven(self)
 
     def _inline_new_helpers(self):
         """functions that are not in the reviewed baseline table (helpers introduced by a later change) are analysed at
